@@ -1,6 +1,7 @@
 import Model.Paging
 import Model.PagingHist
 import Model.PagingRetry
+import Model.PagingWalk
 import Driver.Util
 namespace Driver.C15
 open Util Paging
@@ -409,6 +410,68 @@ def histAnswer (vn kind consumer scriptsS stepsS : String) : String :=
       s!"{itsS} reqs={multiset reqs true} prep={prep} obs={multiset obs true} tr={tr}"
   | _, _ => "bad-op"
 
+/-! ## `walk` op (walk tier: an application consumes ONE iterator step by step and may abandon it):
+    `walk v<n> <scan|mapscan|scanner> <prefetch> <pagesize> <q|x|xs|xd> <script> <steps>`
+    steps `,`-separated: `s<k>` k single calls (Scan / MapScan / Scanner.Next) stopping at the first false,
+    `o` NumRows/WillSwitchPage/PageState, `a` probe + await the asynchronous prefetch, `d` drain with the
+    consumer, `D` drain with SliceMap. After the last step: Close / Err, a running prefetch is awaited, then
+    the node's request log is read. -/
+
+def walkObs (w : Walk.W) : String :=
+  let st := Walk.pageState w
+  s!"o={Walk.numRows w}/{if Walk.willSwitch w then 1 else 0}/{if st.isEmpty then "." else toHex st}"
+
+/-- state, observations so far, SliceMap returned (nil, err) -/
+def walkStep (ppOf : Int → Nat → Nat) (api : Walk.Api) (acc : Walk.W × List String × Bool) (tok : String) :
+    Option (Walk.W × List String × Bool) :=
+  let (w, obs, nilr) := acc
+  if nilr then none else
+  match tok.toList with
+  | 's' :: rest =>
+    (String.ofList rest).toNat?.map fun k =>
+      let r := Walk.scanK ppOf api k w
+      let got := r.1.it.out.drop w.it.out.length
+      (r.1, obs ++ [s!"s={showRows got}/{if r.2 then "T" else "F"}"], false)
+  | ['o'] => some (w, obs ++ [walkObs w], false)
+  | ['a'] => let r := Walk.await ppOf w; some (r.1, obs ++ [s!"a{r.2}"], false)
+  | ['d'] =>
+    let r := Walk.scanK ppOf api (drainN w.it) w
+    some (r.1, obs ++ [s!"d={showRows (r.1.it.out.drop w.it.out.length)}"], false)
+  | ['D'] =>
+    if api != Walk.Api.scan then none else
+    let r := Walk.scanK ppOf api (drainN w.it) w
+    if r.1.it.cur.err.isSome then
+      -- SliceMap: (nil, err); the rows it had read are not handed over
+      some ({ r.1 with it := { r.1.it with out := w.it.out } }, obs ++ ["D=nil"], true)
+    else some (r.1, obs ++ [s!"D={showRows (r.1.it.out.drop w.it.out.length)}"], false)
+  | _ => none
+
+def walkFold (ppOf : Int → Nat → Nat) (api : Walk.Api) :
+    Walk.W × List String × Bool → List String → Option (Walk.W × List String × Bool)
+  | acc, [] => some acc
+  | acc, t :: ts => match walkStep ppOf api acc t with
+    | some a => walkFold ppOf api a ts
+    | none => none
+
+def walkAnswer (consumer pf ps kind script steps : String) : String :=
+  match ps.toInt?, parseScript script with
+  | some pageSize, some sc =>
+    if !(kind == "q" || kind == "x" || kind == "xs" || kind == "xd") then "bad-op" else
+    if !(consumer == "scan" || consumer == "mapscan" || consumer == "scanner") then "bad-op" else
+    let api := if consumer == "scanner" then Walk.Api.scanner else Walk.Api.scan
+    let q : Qry := { ident := 1, prepared := kind != "q", skipMeta := kind == "xs", pageSize := pageSize,
+                     pageState := [], disableAutoPage := false }
+    let ppOf : Int → Nat → Nat := fun _ => prefetchPos pf
+    -- beyond the script the node answers `script exhausted`
+    let w0 := Walk.start ppOf sc q
+    match walkFold ppOf api (w0, [], false) (steps.splitOn ",") with
+    | none => "bad-op"
+    | some (w, obs, _) =>
+      let w1 := Walk.settle ppOf w
+      s!"{";".intercalate obs} rows={showRows w1.it.out} err={showFail w1.it.cur.err} reqs={showReqs 1 w1.it.reqs}"
+  | _, _ => "bad-op"
+
+
 def step (_ : Unit) (ws : List String) : Unit × String :=
   ((), match ws with
   | ["iter", consumer, pages] =>
@@ -425,6 +488,7 @@ def step (_ : Unit) (ws : List String) : Unit × String :=
   | ["sessx", ver, consumer, pf, ps, kind, first, script] => sessAnswer ver consumer pf ps kind first script
   | ["hist", vn, kind, consumer, scripts, steps] => histAnswer vn kind consumer scripts steps
   | ["rsess", ver, consumer, _, ps, kind, first, policy, script] => rsessAnswer ver consumer ps kind first policy script
+  | ["walk", _, consumer, pf, ps, kind, script, steps] => walkAnswer consumer pf ps kind script steps
   | ["rsessx", ver, consumer, _, ps, kind, first, policy, script] => rsessAnswer ver consumer ps kind first policy script
   | _ => "bad-op")
 
